@@ -38,6 +38,8 @@ pub enum Act {
     Hll { lg_k: u8, ty: u8, mode: u8, layout: u8, ooo: bool, coupons: Vec<u32>, more: Vec<u32>, #[serde(default)] legacy: bool },
     /// ver 1..=4; theta64 (MAX = exact); flags: bit0 ordered, bit1 single-item flag, bit2 java p field
     Theta { ver: u8, entries: Vec<u64>, theta: u64, flags: u8, seed: u64 },
+    /// `n` entries (i + 1) * step: entry counts at the edges of the 2-, 3- and 4-byte count fields
+    ThetaBig { ver: u8, n: u32, step: u16, theta_exact: bool, flags: u8 },
     /// form 0 native f64, 1 native f32, 2 reference asBytes, 3 reference asSmallBytes
     Td { form: u8, kk: u16, cents: Vec<(u64, u64)>, buffered: Vec<u64>, reverse: bool },
     BloomDirty { bits: u64, hashes: u16, seed: u64, items: Vec<u64>, dirty: bool },
@@ -467,6 +469,11 @@ impl Scenario for C13 {
                     let more = gen_coupons(rng, lg_k, nm);
                     acts.push(Act::Hll { lg_k, ty: rng.below(3) as u8, mode: rng.below(3) as u8, layout: rng.below(2) as u8, ooo: rng.chance(1, 2), coupons, more, legacy: rng.chance(1, 3) });
                 }
+                4 if rng.chance(1, 40) => {
+                    // entry counts around 2^16 (often) and 2^24 (rarely: 128 MiB of entries)
+                    let n = if rng.chance(1, 30) { (1u32 << 24) - 1 + rng.below(3) as u32 } else { (1u32 << 16) - 1 + rng.below(3) as u32 };
+                    acts.push(Act::ThetaBig { ver: *rng.pick(&[3u8, 4, 4]), n, step: rng.range(1, 5000) as u16, theta_exact: rng.chance(1, 2), flags: 1 });
+                }
                 4..=6 => {
                     let ne = match rng.below(6) {
                         0 => 0,
@@ -520,6 +527,13 @@ impl Scenario for C13 {
             match a {
                 Act::Hll { lg_k, ty, mode, layout, ooo, coupons, more, legacy } => hll_case(*lg_k, *ty, *mode, *layout, *ooo, coupons, more, *legacy, st)?,
                 Act::Theta { ver, entries, theta, flags, seed } => theta_case(*ver, entries, *theta, *flags, *seed, st)?,
+                Act::ThetaBig { ver, n, step, theta_exact, flags } => {
+                    let step = (*step).max(1) as u64;
+                    let entries: Vec<u64> = (0..(*n).min((1 << 24) + 2) as u64).map(|i| (i + 1) * step).collect();
+                    let theta = if *theta_exact { u64::MAX } else { (entries.len() as u64 + 2) * step };
+                    st.probe(if *n >= 1 << 24 { "theta_image_with_four_byte_count" } else { "theta_image_with_three_byte_count" });
+                    theta_case(*ver, &entries, theta, *flags | 1, 9001, st)?;
+                }
                 Act::Td { form, kk, cents, buffered, reverse } => td_case(*form, *kk, cents, buffered, *reverse, st)?,
                 Act::BloomDirty { bits, hashes, seed, items, dirty } => {
                     let mut m = BloomModel::new((*bits).clamp(1, 1 << 18), (*hashes).clamp(1, 64), *seed);
